@@ -234,6 +234,45 @@ def run (j : Json) : Json := Id.run do
     ("known", if unexplained then Json.arr #[] else jstrs known),
     ("why", String.intercalate "; " why)]
 
+/-- Op `c10.ws` (property C10 seen through the workspace): the member files and the file order
+    of the workspace's resolved include tree after Initialize and after every update.  The model
+    is `simulate` projected to members/orders; the oracle demands of the IMPLEMENTATION that
+    after every update the members are exactly the files reachable from the root in the current
+    contents (`membersOk` against the rebuild specification).  Steps after which a fresh
+    workspace would choose another root are outside this op (finding root-not-reselected of C12). -/
+def runMembers (j : Json) : Json := Id.run do
+  let cfg := parseCfg j
+  let files := parseFiles j "files"
+  let ups := parseFiles j "ups"
+  let impl := jget j "impl"
+  let implSteps := (jarr impl "steps").toList
+  let fs0 : FS := files
+  let sim := simulate cfg fs0 ups
+  let stepsJ := sim.steps.map fun s =>
+    Json.mkObj [("mid", jstrs s.mid.members), ("midOrder", jstrs s.midOrder),
+      ("post", jstrs s.post.members), ("postOrder", jstrs s.postOrder)]
+  let model := Json.mkObj [("root", Json.str sim.root), ("init", jstrs sim.init.members),
+    ("order0", jstrs sim.order0), ("steps", Json.arr stepsJ.toArray)]
+  let domain := HL.Spec.Rebuild.fsOk fs0 && fs0.length ≥ 2 && fs0.length ≤ 5 && ups.length ≤ 8 &&
+    ups.all (fun u => u.1 ≠ "" && HL.Spec.Rebuild.contribOk u.2)
+  let root := jstr impl "root"
+  let memView := fun (ms : List String) => ({ (parseView Json.null) with members := ms } : View)
+  let mut why : List String := []
+  if root == HL.Spec.Rebuild.rootOf fs0 then
+    if !HL.Spec.Rebuild.membersOk (HL.Spec.Rebuild.rebuildAt cfg.limit root fs0) (memView (parseStrs impl "init")) then
+      why := why ++ ["after Initialize: the workspace's files are not the files reachable from the root"]
+  let mut i := 0
+  for is in implSteps do
+    match sim.steps[i]? with
+    | none => pure ()
+    | some s =>
+      if HL.Spec.Rebuild.rootOf s.fs == root then
+        if !HL.Spec.Rebuild.membersOk (HL.Spec.Rebuild.rebuildAt cfg.limit root s.fs) (memView (parseStrs is "post")) then
+          why := why ++ [s!"step {i}: the workspace's files are not the files reachable from the root"]
+    i := i + 1
+  return Json.mkObj [("model", model), ("spec_ok", why.isEmpty), ("in_domain", domain),
+    ("known", Json.arr #[]), ("why", String.intercalate "; " why)]
+
 def contrib (j : Json) : Json :=
   let n := jstr j "n"
   let incs := (jarr j "inc").toList.map strOf
@@ -243,6 +282,7 @@ def handle (op : String) (j : Json) : Option Json :=
   match op with
   | "c12.run" => some (run j)
   | "c12.contrib" => some (contrib j)
+  | "c10.ws" => some (runMembers j)
   | _ => none
 
 end HL.Driver.C12
